@@ -115,7 +115,11 @@ export function genTy(rng, d, sc) {
       const key = rng.pick(["t", "kind"]);
       // sometimes two properties qualify as discriminator (the compiler has to pick one, deterministically)
       const key2 = rng.chance(1, 3) ? (key === "t" ? "kind" : rng.pick(["t", "a"])) : null;
-      return [A("union"), ...["a", "b", "c"].slice(0, 2 + rng.below(2)).map((v, i) => [A("obj"), [[key, A("false"), [A("lit"), [A("s"), v]]], ...(key2 ? [[key2, A("false"), [A("lit"), [A("s"), ["x", "ab", "c"][i]]]]] : []), ...genObjMembers(rng, d - 1, sc).filter((m) => m[0] !== key && m[0] !== key2)], A("none")])];
+      const vs = ["a", "b", "c"].slice(0, 2 + rng.below(2)).map((v, i) => [A("obj"), [[key, A("false"), [A("lit"), [A("s"), v]]], ...(key2 ? [[key2, A("false"), [A("lit"), [A("s"), ["x", "ab", "c"][i]]]]] : []), ...genObjMembers(rng, d - 1, sc).filter((m) => m[0] !== key && m[0] !== key2)], A("none")]);
+      // one variant open through an index signature (its declared members are string literals, which conform): the keys it
+      // admits are admitted in strict mode too, for that variant only
+      if (rng.chance(1, 3)) { const v = rng.pick(vs); v[1] = v[1].filter((m) => m[0] === key || m[0] === key2); v[2] = [A("string"), rng.pick([A("string"), A("unknown"), [A("union"), A("string"), A("number")]])]; }
+      return [A("union"), ...vs];
     }
     case 8: return [A("inter"), ...Array.from({ length: 2 }, () => (sc.objNames.length && rng.chance(1, 2) ? [A("ref"), rng.pick(sc.objNames)] : genObj(rng, d - 1, sc, false)))];
     case 9: case 10: if (sc.names.length) {
@@ -450,9 +454,11 @@ function defaultExprProject(rng) {
   const use = rng.pick(["typeof cfg", "(typeof cfg)[\"name\"]", "{ c: typeof cfg }", "keyof typeof cfg"]);
   return [["entry.ts", `import cfg from "./config";\nparse.buildParsers<{ Cfg: ${use} }>();\n`], ["config.ts", lib]];
 }
-const SEM_EXPRS = ["Exclude<Rec | string, string>", "Exclude<Tp | string, string>", "Array<Tp>[number]", "Exclude<Rec | Tp, Tp>", "keyof Rec", "({ a: Rec } | { a: 1 })[\"a\"]", "Exclude<Rec2 | number, number>", "Exclude<Tp | Rec2 | null, null>", "Tp[1]", "Exclude<\"a\" | \"b\" | number, \"a\">"];
+const SEM_EXPRS = ["Exclude<Rec | string, string>", "Exclude<Tp | string, string>", "Array<Tp>[number]", "Exclude<Rec | Tp, Tp>", "keyof Rec", "({ a: Rec } | { a: 1 })[\"a\"]", "Exclude<Rec2 | number, number>", "Exclude<Tp | Rec2 | null, null>", "Tp[1]", "Exclude<\"a\" | \"b\" | number, \"a\">",
+  // named Map / Set / array aliases next to object types in one semantic context (each kind of atom has its own table)
+  "Exclude<Attrs | Lk, Attrs>", "Exclude<Lk | St | string, string>", "(Lk extends Attrs ? 1 : 2)", "Exclude<Attrs | St, St>", "Exclude<Rec | Lk, Rec>", "Exclude<Attrs | Rec2 | Lk | St, Lk>", "(Ar extends Tp ? \"y\" : \"n\")", "Exclude<Ar | Attrs | Lk, Ar>"];
 function semanticProject(rng) {
-  const decls = "type Rec = { next: Rec | null };\ntype Tp = [string, ...Tp[]];\ntype Rec2 = { v: number; kids?: Array<Rec2> };\n";
+  const decls = "type Rec = { next: Rec | null };\ntype Tp = [string, ...Tp[]];\ntype Rec2 = { v: number; kids?: Array<Rec2> };\ntype Attrs = { id: string };\ntype Lk = Map<string, number>;\ntype St = Set<string>;\ntype Ar = Array<string>;\n";
   const n = 2 + rng.below(3);
   const exps = Array.from({ length: n }, (_, i) => `E${i}: ${rng.pick(SEM_EXPRS)}`).join(", ");
   return [["entry.ts", decls + `parse.buildParsers<{ ${exps} }>();\n`]];
@@ -548,7 +554,7 @@ export function gen(rng, params, mode) {
       const single = en.singleDecl + "\n" + addExport(tsOfProg(p), en.singleType);
       const multi = sp.files.map(([n, t]) => (n === "entry.ts" ? [n, en.entryImport + "\n" + addExport(t, en.entryType)] : [n, t])).concat(en.files);
       const p2 = [p[0], p[1], [...p[2], ["EN", A("unknown")]]];
-      const extra = ["a", "b", { tag: "b" }, { tag: "a" }, "internal", { tag: "internal2" }, 1, null];
+      const extra = ["a", "b", { tag: "b" }, { tag: "a" }, "internal", { tag: "internal2" }, 1, null, ...en.extra];
       return [A("split"), A(String(counter++)), p2, [["entry.ts", single]], [...vals, ...extra].map(encVal), sp.proj, multi, sp.expect, A("enum")];
     }
     return [A("split"), A(String(counter++)), p, [["entry.ts", tsOfProg(p)]], vals.map(encVal), sp.proj, sp.files, sp.expect, sp.breakKind];
@@ -578,8 +584,47 @@ export function gen(rng, params, mode) {
   }
   const p = genProg(rng);
   const nvals = Number(params[0] || 12);
+  // `typeof` of constant object literals: the program text says `typeof Ck`, the term (what the model and the reference
+  // read) carries the type TypeScript infers for it — the literal type of the value the expression evaluates to, with
+  // object spread semantics (a later property or spread overwrites an earlier one)
+  let src = null;
+  if (rng.chance(1, 5)) {
+    const ct = genConstTypeof(rng);
+    p[2] = [...p[2], ["EC", ct.ty]];
+    src = ct.decls + "\n" + tsOfProg([p[0], p[1], p[2].map(([n, t]) => (n === "EC" ? [n, A("typeof " + ct.name)] : [n, t]))]);
+  }
   const vals = genValues(rng, p, nvals);
-  return [A("prog"), A(String(counter++)), p, [["entry.ts", tsOfProg(p)]], vals.map(encVal)];
+  return [A("prog"), A(String(counter++)), p, [["entry.ts", src ?? tsOfProg(p)]], vals.map(encVal)];
+}
+// constant declarations `const Ck = { … } as const;` with spreads of earlier constants at any position
+function genConstTypeof(rng) {
+  const consts = []; // {name, text, value}
+  const lit = () => rng.pick([["a", '"a"'], ["b", '"b"'], [1, "1"], [2, "2"], [1.5, "1.5"], [true, "true"], [false, "false"], [null, "null"]]);
+  const expr = (d) => {
+    if (d > 0 && rng.chance(1, 4)) { const n = 1 + rng.below(2); const xs = Array.from({ length: n }, () => expr(d - 1)); return { value: xs.map((x) => x.value), text: "[" + xs.map((x) => x.text).join(", ") + "]" }; }
+    if (d > 0 && rng.chance(1, 3)) return obj(d - 1);
+    const [v, t] = lit(); return { value: v, text: t };
+  };
+  const obj = (d) => {
+    const value = {}; const parts = [];
+    const n = 1 + rng.below(4);
+    // TypeScript rejects a literal that writes a key twice (TS1117) or writes a key that a LATER spread always overwrites
+    // (TS2783); a spread over a spread, and a written key after a spread, are fine
+    const written = new Set();
+    for (let i = 0; i < n; i++) {
+      const objs = consts.filter((c) => c.value && typeof c.value === "object" && !Array.isArray(c.value) && !Object.keys(c.value).some((k) => written.has(k)));
+      if (objs.length && rng.chance(1, 2)) { const c = rng.pick(objs); for (const k of Object.keys(c.value)) { delete value[k]; value[k] = c.value[k]; } parts.push("..." + c.name); }
+      else { const ks = ["kind", "a", "b", "retries", "t"].filter((k) => !written.has(k)); if (!ks.length) break; const k = rng.pick(ks); written.add(k); const e = expr(d); delete value[k]; value[k] = e.value; parts.push(k + ": " + e.text); }
+    }
+    return { value, text: "{ " + parts.join(", ") + " }" };
+  };
+  const nc = 2 + rng.below(2);
+  for (let i = 0; i < nc; i++) { const o = obj(2); consts.push({ name: "C" + i, text: o.text, value: o.value }); }
+  const tyOf = (v) => (v === null ? A("null") : Array.isArray(v) ? [A("readonly"), [A("tuple"), v.map(tyOf), A("none")]]
+    : typeof v === "object" ? [A("obj"), Object.keys(v).map((k) => [k, A("false"), tyOf(v[k])]), A("none")]
+    : [A("lit"), typeof v === "string" ? [A("s"), v] : typeof v === "number" ? [A("n"), String(v)] : [A("b"), A(String(v))]]);
+  const last = consts[consts.length - 1];
+  return { name: last.name, decls: consts.map((c) => `const ${c.name} = ${c.text} as const;`).join("\n"), ty: tyOf(last.value) };
 }
 
 // ---------- load an emitted module against the real runtime ----------
